@@ -28,7 +28,13 @@ func (E *Engine) doRecv(st *State, x *ssa.UnOp, ch *Val) []*State {
 }
 
 func (E *Engine) makeChan(st *State, x *ssa.MakeChan) *Val {
-	panic(engineErr("make(chan) not supported yet"))
+	ref := E.newObject(st, "chan")
+	sz := E.val(st, x.Size)
+	capA := E.heapArrSort(st.heap, "chan!cap", "(Array Int Int)")
+	st.heap["chan!cap"] = sx("store", capA, ref, sz.S)
+	clA := E.heapArrSort(st.heap, "chan!closed", "(Array Int Bool)")
+	st.heap["chan!closed"] = sx("store", clA, ref, "false")
+	return &Val{T: x.Type(), S: ref, Sort: SInt}
 }
 
 func (E *Engine) chanClose(st *State, in ssa.Instruction, c *Val) {
